@@ -1,7 +1,7 @@
 (** C03 — property theorems only.  Each is closed by [exact] of a lemma in Proofs*.v and followed by
     [Print Assumptions]. [check_operation_document] is the model of C03/Model.v that the correspondence
     run ties to crates/checker; [rule_ok] / [rule_ok_vis] are the reference validator of C03/Spec.v. *)
-From V Require Import Base.Util Gql.Ast C03.Model C03.Spec C03.Witness C03.Proofs C03.Proofs2 C03.Proofs3 C03.Proofs4 C03.Proofs5 C03.Proofs6.
+From V Require Import Base.Util Gql.Ast C03.Model C03.Spec C03.Witness C03.Proofs C03.Proofs2 C03.Proofs3 C03.Proofs4 C03.Proofs5 C03.Proofs6 C03.Proofs7 C03.Proofs8.
 
 (** document-level rules: no guard *)
 Theorem C03_sound_unique_op_names : forall S D,
@@ -195,3 +195,79 @@ Theorem C03_duplicate_argument_now_flagged :
   exists t p i, check_operation_document w_schema_0 w_doc_4 = [mkErr (TypeMismatch t) p i].
 Proof. exact duplicate_argument_now_flagged. Qed.
 Print Assumptions C03_duplicate_argument_now_flagged.
+
+(** * The full statement, on every position of every definition (since /repo commit c67e45e a fragment definition that no
+    operation spreads is validated on its own)
+
+    An accepted document satisfies every implemented rule of the reference validator read on *every syntactic position
+    of every definition* — operations and all fragment definitions, spread or not: [rule_ok] ranges over [all_sites]
+    for the site rules (fields, leaf/composite, arguments, literals, type conditions, spreads, directives), over the
+    whole fragment graph for cycles, and, for the two variable rules, over each operation together with the fragment
+    definitions that operation transitively spreads ([op_scope_sites]) — there every variable written anywhere in
+    any argument value counts ([site_var_uses true]). The exception is exactly that: the variables of a fragment
+    definition which no operation reaches are in nobody's scope and are not judged
+    (C03_sound_full_fragment_variables states the variable rules with that guard, [reached_from], spelled out;
+    C03_sound_full_instance is an accepted document with three such fragments, one of which uses undeclared
+    variables). Guards: [schema_wf] (what a schema accepted by check_type_system satisfies, evaluated on every case
+    of the run) and, for the subscription rule only, [selsets_nonempty] (what the parser guarantees). *)
+Theorem C03_sound_full : forall S D,
+  schema_wf S = true -> selsets_nonempty D = true ->
+  check_operation_document S D = [] -> forall r, rule_ok S D r = true.
+Proof. intros S D Hwf Hne Hc. exact (sound_full S D Hwf Hc Hne). Qed.
+Print Assumptions C03_sound_full.
+
+Theorem C03_sound_full_spec_valid : forall S D,
+  schema_wf S = true -> selsets_nonempty D = true ->
+  check_operation_document S D = [] -> spec_valid S D = true.
+Proof. intros S D Hwf Hne Hc. exact (sound_full_valid S D Hwf Hc Hne). Qed.
+Print Assumptions C03_sound_full_spec_valid.
+
+(** the site rules, site by site, for every definition *)
+Theorem C03_sound_full_sites : forall S D,
+  schema_wf S = true -> check_operation_document S D = [] ->
+  forall x, In x (all_sites S D) -> forall r, site_ok false S D r x = true.
+Proof. exact all_sites_good. Qed.
+Print Assumptions C03_sound_full_sites.
+
+(** the variable rules inside fragment definitions, with the guard written out: for every operation [o] that reaches
+    the fragment definition [f], every variable written anywhere at any site of [f] is declared by [o] and, where the
+    position has a type, allowed there *)
+Theorem C03_sound_full_fragment_variables : forall S D,
+  schema_wf S = true -> check_operation_document S D = [] ->
+  forall o f, In o (doc_ops D) -> In f (doc_fragdefs D) -> reached_from D o f = true ->
+  forall x, In x (frag_sites S f) ->
+  forallb (fun u => match find_var o (u_name u), u_type u with
+                    | Some vd, Some t => variable_usage_allowed vd t (u_loc_default u)
+                    | Some _, None => true
+                    | None, _ => false
+                    end) (site_var_uses true S x) = true.
+Proof. exact fragment_variables_sound. Qed.
+Print Assumptions C03_sound_full_fragment_variables.
+
+(** non-vacuity, and the exception at work: corpus document 26 is accepted; of its fragment definitions F G U V W the
+    operation reaches F and G only; U uses variables no operation declares; the document is valid on every position *)
+Theorem C03_sound_full_instance :
+  schema_wf w_schema_0 = true /\ selsets_nonempty w_doc_26 = true
+  /\ check_operation_document w_schema_0 w_doc_26 = []
+  /\ map (fun f => (existsb (fun o => reached_from w_doc_26 o f) (doc_ops w_doc_26), uses_undeclared_variable w_schema_0 w_doc_26 f))
+         (doc_fragdefs w_doc_26)
+     = [(true, false); (true, false); (false, true); (false, false); (false, false)]
+  /\ spec_valid w_schema_0 w_doc_26 = true.
+Proof. exact sound_full_instance. Qed.
+Print Assumptions C03_sound_full_instance.
+
+(** what the type printer of C08 relies on ([expect("Type system error")] sites): in an accepted document, in every
+    definition, every selected field exists on its composite parent type, every spread names a defined fragment whose
+    type condition is a composite type, every inline type condition names a composite type *)
+Theorem C03_accepted_fields_and_fragments_defined : forall S D,
+  schema_wf S = true -> check_operation_document S D = [] ->
+  Forall (fun x => match x with
+                   | StField (Some p) name _ _ => is_composite p = true /\ exists f, sp_field p (iname name) = Some f
+                   | StSpread _ n =>
+                       exists f, sp_frag D (iname n) = Some f
+                                 /\ exists t, sp_type S (iname (fr_cond f)) = Some t /\ is_composite t = true
+                   | StInline _ c => exists t, sp_type S (iname c) = Some t /\ is_composite t = true
+                   | _ => True
+                   end) (all_sites S D).
+Proof. exact accepted_fields_and_fragments_defined. Qed.
+Print Assumptions C03_accepted_fields_and_fragments_defined.
